@@ -72,6 +72,7 @@ where
     staging_buf: Vec<u8>,
     compression_buf: Vec<u8>,
     compression_level: CompressionLevelImpl,
+    is_finished: bool,
 }
 
 impl<W> Writer<W>
@@ -159,6 +160,9 @@ where
         let compressed_data = &mut self.compression_buf;
         let crc32 = deflate::encode(&self.staging_buf, self.compression_level, compressed_data)?;
 
+        // A block written after the EOF block requires a new EOF block.
+        self.is_finished = false;
+
         let inner = self.inner.as_mut().unwrap();
         let uncompressed_size = self.staging_buf.len();
         let block_size = write_frame(inner, compressed_data, crc32, uncompressed_size)?;
@@ -172,7 +176,8 @@ where
 
     /// Attempts to finish the output stream by flushing any remaining buffers.
     ///
-    /// This then appends the final BGZF EOF block.
+    /// This then appends the final BGZF EOF block. The EOF block is written only once, i.e.,
+    /// finishing (or dropping) an already finished writer does not append another one.
     ///
     /// # Examples
     ///
@@ -189,10 +194,15 @@ where
     pub fn try_finish(&mut self) -> io::Result<()> {
         self.flush()?;
 
+        if self.is_finished {
+            return Ok(());
+        }
+
         let inner = self.inner.as_mut().unwrap();
         let result = inner.write_all(&BGZF_EOF);
 
         self.position += BGZF_EOF.len() as u64;
+        self.is_finished = result.is_ok();
 
         result
     }
